@@ -19,9 +19,19 @@ import (
 func newModel(thorough bool) *chainprop.Model {
 	m := &chainprop.Model{Menu: world.Menu()}
 	m.Std()
+	cn, co, cp := chainprop.CeremonyScenario()
+	m.Scn, m.Opts, m.Prefix = append(m.Scn, cn), append(m.Opts, co), append(m.Prefix, cp)
 	m.StdDrive()
+	m.Acts = append(m.Acts,
+		m.FullCeremony("ceremony(all five answer)", []string{"V1", "V2", "N1", "C1", "G"}, []string{"good", "good", "mostly", "good", "mixed"}, []string{"V1", "V2", "N1", "G"}),
+		m.FullCeremony("ceremony(V2,N1,C1 answer)", []string{"V2", "N1", "C1"}, []string{"good", "good", "good"}, []string{"V2", "N1"}),
+	)
 	m.Singles(false)
-	m.Pairs()
+	if thorough {
+		m.Pairs()
+	} else {
+		m.PairsUpTo(1)
+	}
 	m.H.Inserted = func(t *chainprop.Trans) bool {
 		c := t.C
 		pre := t.PreReplica()
@@ -84,7 +94,7 @@ func main() {
 		return
 	}
 	run.SetBudget(6*60e9, 40*60e9)
-	depth := 2
+	depth := 3
 	if run.Thorough() {
 		depth = 4
 	}
